@@ -34,25 +34,26 @@ type Engine struct {
 	contractScope map[string]*types.Scope
 	contractFiles []string
 
-	funcs     map[string]*ssa.Function // pkg::rel -> fn
-	allFuncs  []*ssa.Function
-	modCache  map[*ssa.Function]map[string]bool
-	ghostDecl map[string]string
-	ghostOrd  []string
-	derived   map[string]string
-	derivedOrd []string
-	opaque    map[string]string
-	opaqueOrd []string
-	funcRefs  map[*ssa.Function]string
-	globalRefs map[*ssa.Global]string
-	fileOf    map[string]*ast.File
-	srcCache  map[string][]byte
-	implCache map[string][]*ssa.Function
-	intFuncs  map[string]bool
-	nonNilElems map[string]bool // type keys of pointer element types that are never nil inside slices
-	nonNilFields map[string]string // family key H|T|f -> "checked" | "assumed"
-	nonNilBoxed  map[string]bool
-	guarded      map[string]guardInfo // family key H|T|f -> mutex field
+	funcs           map[string]*ssa.Function // pkg::rel -> fn
+	allFuncs        []*ssa.Function
+	modCache        map[*ssa.Function]map[string]bool
+	ghostDecl       map[string]string
+	ghostOrd        []string
+	derived         map[string]string
+	derivedOrd      []string
+	opaque          map[string]string
+	watched         map[string]bool // callees named in lastresult()/lastarg()/atlast()
+	opaqueOrd       []string
+	funcRefs        map[*ssa.Function]string
+	globalRefs      map[*ssa.Global]string
+	fileOf          map[string]*ast.File
+	srcCache        map[string][]byte
+	implCache       map[string][]*ssa.Function
+	intFuncs        map[string]bool
+	nonNilElems     map[string]bool   // type keys of pointer element types that are never nil inside slices
+	nonNilFields    map[string]string // family key H|T|f -> "checked" | "assumed"
+	nonNilBoxed     map[string]bool
+	guarded         map[string]guardInfo // family key H|T|f -> mutex field
 	commuteVerdicts []*commuteVerdict
 }
 
@@ -95,12 +96,12 @@ func loadEngine(repoDir string) (*Engine, error) {
 	prog.Build()
 	e := &Engine{
 		repoDir: abs, fset: fset, pkgs: pkgs, prog: prog, u: newUniverse(),
-		pkgByPath: map[string]*packages.Package{},
-		contracts: &ContractSet{Funcs: map[string]*Contract{}, Defines: map[string]*Define{}},
-		sizes:     types.SizesFor("gc", "amd64"),
+		pkgByPath:   map[string]*packages.Package{},
+		contracts:   &ContractSet{Funcs: map[string]*Contract{}, Defines: map[string]*Define{}},
+		sizes:       types.SizesFor("gc", "amd64"),
 		contractPos: map[string]token.Pos{}, contractScope: map[string]*types.Scope{},
 		funcs: map[string]*ssa.Function{}, modCache: map[*ssa.Function]map[string]bool{},
-		ghostDecl: map[string]string{}, derived: map[string]string{}, opaque: map[string]string{},
+		ghostDecl: map[string]string{}, derived: map[string]string{}, opaque: map[string]string{}, watched: watchedCallees,
 		funcRefs: map[*ssa.Function]string{}, globalRefs: map[*ssa.Global]string{},
 		fileOf: map[string]*ast.File{}, srcCache: map[string][]byte{}, implCache: map[string][]*ssa.Function{}, intFuncs: map[string]bool{},
 	}
